@@ -8,3 +8,7 @@ pub fn run(st: usize, lay_idx: u16, op: u16, a: u128, b: u128, outs: &mut Outs) 
 pub fn run_program(st: usize, lay_idx: u16, a: u128, prog: &[(u16, u128, u128)], s: &str, outs: &mut Outs) {
     lay::with_layout_ua!(lay_idx as usize, F => run_prog_unsigned::<F>(st, a, prog, s, outs))
 }
+
+pub fn run_misc(st: usize, lay_idx: u16, sel: u128, a: u128, b: u128, outs: &mut Outs) {
+    lay::with_layout_ua!(lay_idx as usize, F => run_misc_unsigned::<F>(st, sel, a, b, outs))
+}
